@@ -2,7 +2,8 @@
 //!
 //! `(c05 (cmd ...) (pre x.. ...) (tail x.. ...) (alt x.. ...))` parses, with the real crate, the three
 //! argument vectors  A = pre ++ ["--"] ++ tail,  B = pre ++ ["--"] ++ alt,  C = pre ++ ["--"]
-//! against the same command and prints the three canonical results separated by ` ;; `.
+//! against the same command and D = pre,
+//! and prints the four canonical results separated by ` ;; `.
 use crate::modes::parse::{build_cmd, kind_name, show_matches, EnvGuard};
 use crate::sexp::Sx;
 use std::ffi::OsString;
@@ -58,7 +59,23 @@ fn c05(a: &[Sx]) -> String {
             }
         }
     };
-    format!("{} ;; {} ;; {}", run(Some(&tail)), run(Some(&alt)), run(None))
+    // D = pre alone (no escape at all): what the options hold "without the tail" in the strict reading
+    let bare = {
+        let c = cmd.clone();
+        let argv = pre.clone();
+        match catch_unwind(AssertUnwindSafe(|| show_result(c.try_get_matches_from(argv)))) {
+            Ok(s) => s,
+            Err(p) => {
+                let msg = p
+                    .downcast_ref::<String>()
+                    .cloned()
+                    .or_else(|| p.downcast_ref::<&str>().map(|s| s.to_string()))
+                    .unwrap_or_default();
+                format!("PANIC {}", msg.replace(['\n', '\t'], " "))
+            }
+        }
+    };
+    format!("{} ;; {} ;; {} ;; {}", run(Some(&tail)), run(Some(&alt)), run(None), bare)
 }
 
 /// Returns `Some(result)` when `head` is a mode of this file.
